@@ -466,8 +466,8 @@ package netty
 //@   ensures mode: implies(old(c.untilWrite), count("select nonblocking") == 0) && implies(!old(c.untilWrite), count("select blocking") == 0) && count("select blocking") + count("select nonblocking") <= 1 && count("time.Sleep") == 0 && count("lock c.writeLock") == 0
 //@   ensures full_only_on_default: implies(count("select default") == 1, result1 == ErrAsyncNoSpace) && implies(result1 == ErrAsyncNoSpace && count("select recv c.ctx.Done()") == 0 && count("select recv ctx.Done()") == 0, count("select default") == 1)
 //@   ensures cancelled: implies(count("select recv ctx.Done()") == 1, result1 != nil && count("select send c.writeQueue") == 0)
-//@   ensures closed_branch_fails: implies(count("select recv c.ctx.Done()") == 1, result1 != nil)
-//@   ensures closed_rejects: implies(old(closedState(c)), result1 != nil && count("select send c.writeQueue") == 0)
+//@   ensures closed_branch_fails@C11: implies(count("select recv c.ctx.Done()") == 1, result1 != nil)
+//@   ensures closed_rejects@C11: implies(old(closedState(c)), result1 != nil && count("select send c.writeQueue") == 0)
 
 // asyncWritev: all buffers are merged into ONE packet (C09: a vectored message is one queue entry)
 //@ func (*channel).asyncWritev
@@ -488,8 +488,8 @@ package netty
 //@   ensures mode: implies(old(c.untilWrite), count("select nonblocking") == 0) && implies(!old(c.untilWrite), count("select blocking") == 0) && count("select blocking") + count("select nonblocking") <= 1 && count("time.Sleep") == 0 && count("lock c.writeLock") == 0
 //@   ensures full_only_on_default: implies(count("select default") == 1, result1 == ErrAsyncNoSpace)
 //@   ensures cancelled: implies(count("select recv ctx.Done()") == 1, result1 != nil && count("select send c.writeQueue") == 0)
-//@   ensures closed_branch_fails: implies(count("select recv c.ctx.Done()") == 1, result1 != nil)
-//@   ensures closed_rejects: implies(old(closedState(c)), result1 != nil && count("select send c.writeQueue") == 0)
+//@   ensures closed_branch_fails@C11: implies(count("select recv c.ctx.Done()") == 1, result1 != nil)
+//@   ensures closed_rejects@C11: implies(old(closedState(c)), result1 != nil && count("select send c.writeQueue") == 0)
 
 // events enter the pipeline through these (the concrete *pipeline methods are verified above);
 // handlers behind them are arbitrary code: may panic, may modify anything but pipeline/context/
@@ -537,7 +537,7 @@ package netty
 //@   ensures inactive_carries_the_winning_error: implies(evres(0, 0), evarg(first("Pipeline.FireChannelInactive"), 0) == err)
 //@   ensures sync_channel_does_not_wait: implies(evres(0, 0) && old(c.writeQueue) == nil, count("load c.running") == 0 && count("time.Sleep") == 0)
 //@   ensures waits_for_sender: implies(evres(0, 0) && old(c.writeQueue) != nil && old(c.untilWrite), evis(first("net.Conn.Close") - 1, "load c.running") && evres(first("net.Conn.Close") - 1, 0) == 0)
-//@   ensures observes_queue_empty_then_idle: implies(evres(0, 0) && old(c.writeQueue) != nil && old(c.untilWrite), evis(first("net.Conn.Close") - 2, "len c.writeQueue") && evres(first("net.Conn.Close") - 2, 0) == 0)
+//@   ensures observes_queue_empty_then_idle@C06: implies(evres(0, 0) && old(c.writeQueue) != nil && old(c.untilWrite), evis(first("net.Conn.Close") - 2, "len c.writeQueue") && evres(first("net.Conn.Close") - 2, 0) == 0)
 //@ order (*channel).Close: "cas c.closed" dominates "net.Conn.Close"
 
 // The background sender. One activation owns the sender token (running == 1) from its start
@@ -585,7 +585,7 @@ package netty
 //@   ensures sync_locked_write_then_flush: implies(old(c.writeQueue) == nil && count("net.Conn.Write") == 1, evis(0, "lock c.writeLock") && evrecv(first("net.Conn.Write")) == old(c.transport) && sameslice(evarg(first("net.Conn.Write"), 0), p) && count("unlock c.writeLock") == 1 && evis(nemitted()-1, "unlock c.writeLock") && count("lock c.writeLock") == 1)
 //@   ensures sync_flush_iff_written: implies(old(c.writeQueue) == nil && count("net.Conn.Write") == 1, (count("Transport.Flush") == 1) == (evres(first("net.Conn.Write"), 1) == nil) && implies(count("Transport.Flush") == 1, first("Transport.Flush") > first("net.Conn.Write") && first("Transport.Flush") < last("unlock c.writeLock")))
 //@   ensures sync_result: implies(old(c.writeQueue) == nil && count("net.Conn.Write") == 1 && count("Transport.Flush") == 0, err == evres(first("net.Conn.Write"), 1)) && implies(count("Transport.Flush") == 1, err == evres(first("Transport.Flush"), 0))
-//@   ensures closed_rejects: implies(old(closedState(c)), err != nil && count("select send c.writeQueue") == 0)
+//@   ensures closed_rejects@C11: implies(old(closedState(c)), err != nil && count("select send c.writeQueue") == 0)
 //@ func (*channel).Writev
 //@   requires chinv(c) && implies(c.writeQueue != nil, cap(c.writeQueue) >= 1)
 //@   modifies ghost pooltyp, ghost chclosed, elems(uint8), cell([]byte), channel.running
@@ -597,7 +597,7 @@ package netty
 //@   ensures sync_locked_write_then_flush: implies(old(c.writeQueue) == nil && count("BuffersWriter.Writev") == 1, evis(0, "lock c.writeLock") && evrecv(first("BuffersWriter.Writev")) == old(c.transport) && sameslice(evarg(first("BuffersWriter.Writev"), 0), p) && count("unlock c.writeLock") == 1 && evis(nemitted()-1, "unlock c.writeLock") && count("lock c.writeLock") == 1)
 //@   ensures sync_flush_iff_written: implies(old(c.writeQueue) == nil && count("BuffersWriter.Writev") == 1, (count("Transport.Flush") == 1) == (evres(first("BuffersWriter.Writev"), 1) == nil) && implies(count("Transport.Flush") == 1, first("Transport.Flush") > first("BuffersWriter.Writev") && first("Transport.Flush") < last("unlock c.writeLock")))
 //@   ensures sync_result: implies(old(c.writeQueue) == nil && count("BuffersWriter.Writev") == 1 && count("Transport.Flush") == 0, err == evres(first("BuffersWriter.Writev"), 1)) && implies(count("Transport.Flush") == 1, err == evres(first("Transport.Flush"), 0))
-//@   ensures closed_rejects: implies(old(closedState(c)), err != nil && count("select send c.writeQueue") == 0)
+//@   ensures closed_rejects@C11: implies(old(closedState(c)), err != nil && count("select send c.writeQueue") == 0)
 //@ func (*channel).CtxWrite1
 //@   requires chinv(c) && implies(c.writeQueue != nil, cap(c.writeQueue) >= 1) && ctx != nil && len(p) <= 1<<47
 //@   modifies ghost pooltyp, ghost chclosed, elems(uint8), cell([]byte), channel.running
@@ -609,7 +609,7 @@ package netty
 //@   ensures sync_locked_write_then_flush: implies(old(c.writeQueue) == nil && count("net.Conn.Write") == 1, evis(0, "lock c.writeLock") && evrecv(first("net.Conn.Write")) == old(c.transport) && sameslice(evarg(first("net.Conn.Write"), 0), p) && count("unlock c.writeLock") == 1 && evis(nemitted()-1, "unlock c.writeLock") && count("lock c.writeLock") == 1)
 //@   ensures sync_flush_iff_written: implies(old(c.writeQueue) == nil && count("net.Conn.Write") == 1, (count("Transport.Flush") == 1) == (evres(first("net.Conn.Write"), 1) == nil) && implies(count("Transport.Flush") == 1, first("Transport.Flush") > first("net.Conn.Write") && first("Transport.Flush") < last("unlock c.writeLock")))
 //@   ensures sync_result: implies(old(c.writeQueue) == nil && count("net.Conn.Write") == 1 && count("Transport.Flush") == 0, err == evres(first("net.Conn.Write"), 1)) && implies(count("Transport.Flush") == 1, err == evres(first("Transport.Flush"), 0))
-//@   ensures closed_rejects: implies(old(closedState(c)), err != nil && count("select send c.writeQueue") == 0)
+//@   ensures closed_rejects@C11: implies(old(closedState(c)), err != nil && count("select send c.writeQueue") == 0)
 //@ func (*channel).CtxWritev
 //@   requires chinv(c) && implies(c.writeQueue != nil, cap(c.writeQueue) >= 1) && ctx != nil
 //@   modifies ghost pooltyp, ghost chclosed, elems(uint8), cell([]byte), channel.running
@@ -621,7 +621,7 @@ package netty
 //@   ensures sync_locked_write_then_flush: implies(old(c.writeQueue) == nil && count("BuffersWriter.Writev") == 1, evis(0, "lock c.writeLock") && evrecv(first("BuffersWriter.Writev")) == old(c.transport) && sameslice(evarg(first("BuffersWriter.Writev"), 0), pv) && count("unlock c.writeLock") == 1 && evis(nemitted()-1, "unlock c.writeLock") && count("lock c.writeLock") == 1)
 //@   ensures sync_flush_iff_written: implies(old(c.writeQueue) == nil && count("BuffersWriter.Writev") == 1, (count("Transport.Flush") == 1) == (evres(first("BuffersWriter.Writev"), 1) == nil) && implies(count("Transport.Flush") == 1, first("Transport.Flush") > first("BuffersWriter.Writev") && first("Transport.Flush") < last("unlock c.writeLock")))
 //@   ensures sync_result: implies(old(c.writeQueue) == nil && count("BuffersWriter.Writev") == 1 && count("Transport.Flush") == 0, err == evres(first("BuffersWriter.Writev"), 1)) && implies(count("Transport.Flush") == 1, err == evres(first("Transport.Flush"), 0))
-//@   ensures closed_rejects: implies(old(closedState(c)), err != nil && count("select send c.writeQueue") == 0)
+//@   ensures closed_rejects@C11: implies(old(closedState(c)), err != nil && count("select send c.writeQueue") == 0)
 //@ func (*channel).Write1
 //@   inline
 //@ func (*channel).Writer
@@ -640,7 +640,7 @@ package netty
 //@   ensures fires_write: implies(count("recv c.ctx.Done()") == 0, count("Pipeline.FireChannelWrite") == 1 && evrecv(first("Pipeline.FireChannelWrite")) == old(c.pipeline) && evarg(first("Pipeline.FireChannelWrite"), 0) == message)
 //@   ensures inactive_fails: implies(count("recv c.ctx.Done()") == 1, count("Pipeline.FireChannelWrite") == 0 && evres(0, 0) != 0)
 //@   ensures exception_at_most_once: count("Pipeline.FireChannelException") <= 1 && implies(count("Pipeline.FireChannelException") == 1, first("Pipeline.FireChannelException") > first("Pipeline.FireChannelWrite"))
-//@   ensures closed_rejects: implies(old(closedState(c)), result != nil && count("Pipeline.FireChannelWrite") == 0)
+//@   ensures closed_rejects@C11: implies(old(closedState(c)), result != nil && count("Pipeline.FireChannelWrite") == 0)
 //@ func (*channel).Trigger
 //@   requires chinv(c)
 //@   modifies all
@@ -699,3 +699,29 @@ package netty
 //@   ensures last_chunk_is_what_was_read: implies(count("netty.channel.write1") == 1, at(last("netty.channel.write1"), len(evarg(last("netty.channel.write1"), 1)) >= 1 && seqeq(content(evarg(last("netty.channel.write1"), 1)), subseq(rdata(r), rpos(r) - len(evarg(last("netty.channel.write1"), 1)), len(evarg(last("netty.channel.write1"), 1))))))
 //@   ensures all_read: implies(err == nil, rpos(r) == rend(r))
 //@   ensures counted: implies(err == nil, n == rpos(r) - old(rpos(r)))
+
+// ---------------------------------------------------------------------------
+// C02 / C06 / C01: the sender-token protocol as a guarantee relation over the atomic points.
+// Ghost counters: q queue length; run the running flag; kick writers between their enqueue and
+// their CAS; rc sender activations between "store c.running" and their re-check; b packets popped
+// but not yet written; u transport holds unflushed bytes; failed a transport call failed.
+// Every atomic point of asyncWrite/asyncWritev/writeOnce is one of these actions (that is what the
+// event posts of those functions pin down); every action preserves INV; quiescence implies delivery.
+//@ property C02 C06 C01
+//@ spec func INV(q int, run int, kick int, rc int, b int, u bool, failed bool) bool = q >= 0 && kick >= 0 && rc >= 0 && b >= 0 && (run == 0 || run == 1) && implies(q > 0, run == 1 || kick > 0 || rc > 0 || failed) && implies(u, run == 1 || failed) && implies(b > 0, run == 1 || failed)
+//@ lemma act_enqueue(q int, run int, kick int, rc int, b int, u bool, failed bool) implies(INV(q, run, kick, rc, b, u, failed), INV(q+1, run, kick+1, rc, b, u, failed))
+//@ lemma act_kick_ok(q int, run int, kick int, rc int, b int, u bool, failed bool) implies(INV(q, run, kick, rc, b, u, failed) && kick > 0 && run == 0, INV(q, 1, kick-1, rc, b, u, failed))
+//@ lemma act_kick_fail(q int, run int, kick int, rc int, b int, u bool, failed bool) implies(INV(q, run, kick, rc, b, u, failed) && kick > 0 && run == 1, INV(q, run, kick-1, rc, b, u, failed))
+//@ lemma act_pop(q int, run int, kick int, rc int, b int, u bool, failed bool) implies(INV(q, run, kick, rc, b, u, failed) && run == 1 && q > 0, INV(q-1, run, kick, rc, b+1, u, failed))
+//@ lemma act_writev_ok(q int, run int, kick int, rc int, b int, u bool, failed bool) implies(INV(q, run, kick, rc, b, u, failed) && run == 1, INV(q, run, kick, rc, 0, true, failed))
+//@ lemma act_transport_fails(q int, run int, kick int, rc int, b int, u bool, failed bool) implies(INV(q, run, kick, rc, b, u, failed) && run == 1, INV(q, run, kick, rc, b, u, true))
+//@ lemma act_flush_ok(q int, run int, kick int, rc int, b int, u bool, failed bool) implies(INV(q, run, kick, rc, b, u, failed) && run == 1 && b == 0, INV(q, run, kick, rc, b, false, failed))
+//@ lemma act_release(q int, run int, kick int, rc int, b int, u bool, failed bool) implies(INV(q, run, kick, rc, b, u, failed) && run == 1 && b == 0 && !u, INV(q, 0, kick, rc+1, b, u, failed))
+//@ lemma act_recheck_empty(q int, run int, kick int, rc int, b int, u bool, failed bool) implies(INV(q, run, kick, rc, b, u, failed) && rc > 0 && q == 0, INV(q, run, kick, rc-1, b, u, failed))
+//@ lemma act_reacquire_ok(q int, run int, kick int, rc int, b int, u bool, failed bool) implies(INV(q, run, kick, rc, b, u, failed) && rc > 0 && run == 0, INV(q, 1, kick, rc-1, b, u, failed))
+//@ lemma act_reacquire_fail(q int, run int, kick int, rc int, b int, u bool, failed bool) implies(INV(q, run, kick, rc, b, u, failed) && rc > 0 && run == 1, INV(q, run, kick, rc-1, b, u, failed))
+//@ lemma act_failure_release(q int, run int, kick int, rc int, b int, u bool, failed bool) implies(INV(q, run, kick, rc, b, u, failed) && run == 1 && failed, INV(q, 0, kick, rc, b, u, failed))
+//@ lemma quiescent_means_delivered(q int, run int, kick int, rc int, b int, u bool, failed bool) implies(INV(q, run, kick, rc, b, u, failed) && kick == 0 && rc == 0 && run == 0 && !failed, q == 0 && b == 0 && !u)
+//@ lemma close_after_empty_then_idle(q int, run int, kick int, rc int, b int, u bool, failed bool) implies(INV(q, run, kick, rc, b, u, failed) && q == 0 && run == 0 && !failed, b == 0 && !u)
+// the variants a sender without re-check / without flush would need are NOT invariant-preserving:
+// (kept as documentation of why the code's re-check and flush are necessary; see selftest mutants)
